@@ -792,11 +792,26 @@ func ruleCLONE1(c *Ctx) {
 	c.check(fresh, "clone/globals-fresh", lit, "the clone's globals slice is made fresh", "the clone shares the globals slice (or its backing array) with the original")
 	// elements copied through Copy()
 	copied := containsNode(fd.Body, func(n ast.Node) bool {
-		rs, ok := n.(*ast.RangeStmt)
-		if !ok || !strings.HasSuffix(w.Src(rs.X), ".globals") {
+		// a loop over the original's globals, by range or by index
+		var body *ast.BlockStmt
+		switch x := n.(type) {
+		case *ast.RangeStmt:
+			if !strings.HasSuffix(w.Src(x.X), ".globals") {
+				return false
+			}
+			body = x.Body
+		case *ast.ForStmt:
+			if !containsNode(x.Body, func(m ast.Node) bool {
+				ix, ok := m.(*ast.IndexExpr)
+				return ok && strings.HasSuffix(w.Src(ix.X), ".globals")
+			}) {
+				return false
+			}
+			body = x.Body
+		default:
 			return false
 		}
-		return containsNode(rs.Body, func(m ast.Node) bool {
+		return containsNode(body, func(m ast.Node) bool {
 			as, ok := m.(*ast.AssignStmt)
 			if !ok || len(as.Lhs) != 1 {
 				return false
